@@ -86,14 +86,39 @@ def perm_tm2pm(n, npar, ns, i):
     return (k * n + t) * ns + s
 
 
-def build(fam, a, explicit):
+def make_inputs(fam, a):
+    """the constructor input ARRAYS of a configuration (created once per case: every operator of the case is
+    built from these same objects, so that a constructor or a call writing into its inputs is observed)"""
+    if fam in ("mdc", "mdcm", "fred"):
+        return {"G": np.array(a["Gre"], dtype=float) + 1j * np.array(a["Gim"], dtype=float)}
+    arrs = {"wav": np.array(a["wav"], dtype=float)}
+    if fam == "pre":
+        arrs["theta"] = np.array(a["theta"], dtype=float)
+        if isinstance(a["vsvp"], list):
+            arrs["vsvp"] = np.array(a["vsvp"], dtype=float)
+    return arrs
+
+
+def pristine(arrs):
+    return {k: v.copy() for k, v in arrs.items()}
+
+
+def modified_inputs(arrs, orig):
+    """names of the input arrays that are no longer bitwise equal to their pristine copies"""
+    return [k for k in sorted(arrs) if arrs[k].shape != orig[k].shape or arrs[k].dtype != orig[k].dtype
+            or arrs[k].tobytes() != orig[k].tobytes()]
+
+
+def build(fam, a, explicit, arrs=None):
     Post, Pre, avo, MDC = _imports()
+    if arrs is None:
+        arrs = make_inputs(fam, a)
     sp = tuple(a["spatdims"]) if a.get("spatdims") else None
     if fam in ("post", "nonstat"):
-        return Post(np.array(a["wav"], dtype=float), a["nt0"], spatdims=sp, explicit=explicit, kind=a["kind"])
+        return Post(arrs["wav"], a["nt0"], spatdims=sp, explicit=explicit, kind=a["kind"])
     if fam == "pre":
-        vsvp = np.array(a["vsvp"], dtype=float) if isinstance(a["vsvp"], list) else float(a["vsvp"])
-        return Pre(np.array(a["wav"], dtype=float), np.array(a["theta"], dtype=float), vsvp=vsvp, nt0=a["nt0"],
+        vsvp = arrs["vsvp"] if "vsvp" in arrs else float(a["vsvp"])
+        return Pre(arrs["wav"], arrs["theta"], vsvp=vsvp, nt0=a["nt0"],
                    spatdims=sp, linearization=a["lin"], explicit=explicit, kind=a["kind"])
     raise ValueError(fam)
 
@@ -103,16 +128,16 @@ def mdc_kernel(a):
     return G
 
 
-def build_mdc(a):
+def build_mdc(a, G=None):
     MDC = _imports()[3]
-    return MDC(mdc_kernel(a), a["nt"], a["nv"], dt=a["dt"], dr=a["dr"], twosided=a["twosided"],
+    return MDC(mdc_kernel(a) if G is None else G, a["nt"], a["nv"], dt=a["dt"], dr=a["dr"], twosided=a["twosided"],
                saveGt=a["saveGt"], usematmul=a["usematmul"], conj=bool(a.get("conj", False)),
                prescaled=bool(a.get("prescaled", False)))
 
 
-def build_fred(a):
+def build_fred(a, G=None):
     from pylops.signalprocessing import Fredholm1
-    return Fredholm1(mdc_kernel(a), a["nz"], saveGt=a["saveGt"], usematmul=a["usematmul"], dtype="complex128")
+    return Fredholm1(mdc_kernel(a) if G is None else G, a["nz"], saveGt=a["saveGt"], usematmul=a["usematmul"], dtype="complex128")
 
 
 def run_fred(a):
@@ -121,12 +146,21 @@ def run_fred(a):
     G = mdc_kernel(a)
     nsl, nx, ny = G.shape
     nz = a["nz"]
+    arrs = {"G": G.copy()}
     try:
-        op = build_fred(a)
+        op = build_fred(a, arrs["G"])
         M = np.array([np.asarray(op.matvec(e.astype(complex))).ravel() for e in np.eye(nsl * ny * nz)])
         A = np.array([np.asarray(op.rmatvec(e.astype(complex))).ravel() for e in np.eye(nsl * nx * nz)])
+        M2 = np.array([np.asarray(build_fred(a, arrs["G"]).matvec(e.astype(complex))).ravel() for e in np.eye(nsl * ny * nz)])
     except Exception as ex:
         rec["fail"] = {"kind": "raised", "error": "%s: %s" % (type(ex).__name__, str(ex)[:120])}
+        return rec
+    bad = modified_inputs(arrs, {"G": G})
+    if bad:
+        rec["fail"] = {"kind": "input modified", "when": "construction / calls", "inputs": bad}
+        return rec
+    if np.abs(M2 - M).max(initial=0) > 0:
+        rec["fail"] = {"kind": "rebuilt differs", "detail": "second Fredholm1 from the same kernel array differs"}
         return rec
     Mr = np.array([np.einsum("kij,kjz->kiz", G, e.reshape(nsl, ny, nz)).ravel() for e in np.eye(nsl * ny * nz)])
     Ar = np.array([np.einsum("kij,kiz->kjz", G.conj(), e.reshape(nsl, nx, nz)).ravel() for e in np.eye(nsl * nx * nz)])
@@ -203,10 +237,16 @@ def is_k2(a):
 def run_seis(fam, a):
     """both constructions of the implementation; returns record with dense data or a property-level failure"""
     rec = {"fam": fam, "args": a}
+    arrs = make_inputs(fam, a)
+    orig = pristine(arrs)
     try:
-        Eop, Lop = build(fam, a, True), build(fam, a, False)
+        Eop, Lop = build(fam, a, True, arrs), build(fam, a, False, arrs)
     except Exception as ex:  # constructor failure on a valid configuration
         rec["fail"] = {"kind": "constructor raised", "error": "%s: %s" % (type(ex).__name__, ex)}
+        return rec
+    bad = modified_inputs(arrs, orig)
+    if bad:
+        rec["fail"] = {"kind": "input modified", "when": "construction", "inputs": bad}
         return rec
     if Eop.shape != Lop.shape:
         rec["fail"] = {"kind": "shape mismatch", "explicit_shape": list(Eop.shape), "lop_shape": list(Lop.shape)}
@@ -217,6 +257,25 @@ def run_seis(fam, a):
         rec["fail"] = {"kind": "apply raised", "error": "%s: %s" % (type(ex).__name__, ex)}
         return rec
     rec.update(E=E, L=L, AE=AE, AL=AL)
+    bad = modified_inputs(arrs, orig)
+    if bad:
+        rec["fail"] = {"kind": "input modified", "when": "forward/adjoint calls", "inputs": bad}
+        return rec
+    # a third and fourth operator from the SAME input arrays must be the same maps
+    try:
+        E2, L2 = fwd_cols(build(fam, a, True, arrs)), fwd_cols(build(fam, a, False, arrs))
+    except Exception as ex:
+        rec["fail"] = {"kind": "rebuilt differs", "error": "%s: %s" % (type(ex).__name__, ex)}
+        return rec
+    for nm, P, Q in (("explicit", E2, E), ("matrix-free", L2, L)):
+        fd = first_diff(P, Q)
+        if fd is not None:
+            rec["fail"] = {"kind": "rebuilt differs", "construction": nm, "detail": [str(t) for t in fd]}
+            return rec
+    bad = modified_inputs(arrs, orig)
+    if bad:
+        rec["fail"] = {"kind": "input modified", "when": "second construction", "inputs": bad}
+        return rec
     ER, AER = rearranged(fam, a, E), rearranged(fam, a, AE)
     for direction, P, Q in (("forward", L, ER), ("adjoint", AL, AER)):
         fd = first_diff(P, Q)
@@ -232,14 +291,39 @@ def run_seis(fam, a):
 
 def run_mdc(a, fam="mdc"):
     rec = {"fam": fam, "args": a}
+    arrs = make_inputs(fam, a)
+    orig = pristine(arrs)
     try:
-        op = build_mdc(a)
+        op = build_mdc(a, arrs["G"])
+        bad = modified_inputs(arrs, orig)
+        if bad:
+            rec["fail"] = {"kind": "input modified", "when": "construction", "inputs": bad}
+            return rec
         M, A = fwd_cols(op), adj_rows(op)
     except Exception as ex:
         rec["fail"] = {"kind": "raised", "error": "%s: %s" % (type(ex).__name__, str(ex)[:120])}
         return rec
-    ref = mdc_reference_cols(a)
+    ref = mdc_reference_cols(a)          # computed from a fresh (pristine) kernel built from the case description
     rec.update(M=M, A=A, ref=ref)
+    bad = modified_inputs(arrs, orig)
+    if bad:
+        rec["fail"] = {"kind": "input modified", "when": "forward/adjoint calls", "inputs": bad}
+        return rec
+    # second and third operator from the SAME kernel array (R and R* in Marchenko, operator and psf in MDD)
+    try:
+        for k in (2, 3):
+            Mk = fwd_cols(build_mdc(a, arrs["G"]))
+            fd = first_diff(Mk, M)
+            if fd is not None:
+                rec["fail"] = {"kind": "rebuilt differs", "operator_number": k, "detail": [str(t) for t in fd]}
+                return rec
+    except Exception as ex:
+        rec["fail"] = {"kind": "rebuilt differs", "error": "%s: %s" % (type(ex).__name__, str(ex)[:120])}
+        return rec
+    bad = modified_inputs(arrs, orig)
+    if bad:
+        rec["fail"] = {"kind": "input modified", "when": "second construction", "inputs": bad}
+        return rec
     for direction, P in (("forward", M), ("adjoint", A)):
         fd = first_diff(P, ref)
         if fd is not None:
@@ -559,6 +643,10 @@ def main(tier):
             elif fam in ("mdc", "mdcm", "fred") and is_k2(a) and "C20-K2" in known and rec["fail"]["kind"] == "raised":
                 R.known_finding("C20-K2", PROPOSED_KNOWN[1]["what"])
                 nknown += 1
+            elif rec["fail"]["kind"] in ("input modified", "rebuilt differs"):
+                R.violation("%s construction is not pure: %s (constructor input arrays must stay bitwise unchanged and every operator "
+                            "built from the same arrays must be the same map) for %s" % (
+                                fam, rec["fail"], {k: v for k, v in a.items() if k not in ("Gre", "Gim", "wav")}), rp)
             elif fam == "fred":
                 R.violation("Fredholm1 differs from the batched slice product d[k] = G[k] m[k] (usematmul=%s saveGt=%s nz=%d): %s"
                             % (a["usematmul"], a["saveGt"], a["nz"], rec["fail"]), rp)
